@@ -75,7 +75,9 @@ class E1Sink:
                 rep.violation(clause, key, detail, job)
             else:
                 self.other["%s/%s" % (prop, key)] = self.other.get("%s/%s" % (prop, key), 0) + 1
-        if res["exc"] is not None and not res.get("injected"):
+        if res["exc"] is not None and job.get("expect") == "reject":
+            self.judged += 1
+        elif res["exc"] is not None and not res.get("injected"):
             injected_gp = bool((job.get("script") or {}).get("fit")) or bool((job.get("script") or {}).get("pred"))
             if self.crash:
                 key = "crash/%s|%s" % (res["exc"], self.cfg_class(job))
